@@ -1359,3 +1359,85 @@ m("C15", "key-of-other-names", TP,
 m("C15", "refactor-digest-loop", ZT,
   "            'strict',\n            'mode',",
   "            'mode',\n            'strict',", expect="silent")
+
+# ---- C16 -------------------------------------------------------------------
+m("C16", "stale-macros-kept", TP,
+  '''        for attr in [
+            attr for attr in self.__dict__
+            if attr.startswith("_render") and attr[1:] not in functions
+        ]:
+            delattr(self, attr)
+
+''', '')
+m("C16", "flag-before-publish", TP,
+  '''        for name, function in functions.items():
+            setattr(self, "_" + name, function)
+''',
+  '''        self._cooked = True
+        for name, function in functions.items():
+            setattr(self, "_" + name, function)
+''')
+m("C16", "render-without-cook-check", TP,
+  '''        rcontext: dict[str, Any] = {}
+        self.cook_check()
+        stream = self.output_stream_factory()''',
+  '''        rcontext: dict[str, Any] = {}
+        stream = self.output_stream_factory()''')
+m("C16", "mtime-not-remembered", TP,
+  '''            if mtime != self._v_last_read:
+                self._v_last_read = mtime
+                self._cooked = False''',
+  '''            if mtime != self._v_last_read:
+                self._cooked = False''')
+m("C16", "reload-only-if-newer", TP,
+  "            if mtime != self._v_last_read:",
+  "            if self._v_last_read is None or mtime > self._v_last_read:")
+m("C16", "content-type-stale-after-reload", TP,
+  '''        body, encoding, content_type = read_bytes(data, self.default_encoding)
+
+        self.content_type = content_type or self.default_content_type
+        self.content_encoding = encoding
+
+        return body''',
+  '''        body, encoding, content_type = read_bytes(data, self.default_encoding)
+
+        if getattr(self, "content_type", None) is None:
+            self.content_type = content_type or self.default_content_type
+            self.content_encoding = encoding
+
+        return body''')
+m("C16", "last-match-wins", LO,
+  '''                        path = os.path.join(path, spec)
+                        if os.path.exists(path):
+                            package_name = None
+                            spec = path
+                            break''',
+  '''                        path = os.path.join(path, spec)
+                        if os.path.exists(path):
+                            package_name = None
+                            found = path
+                            continue''')
+m("C16", "extension-always-added", LO,
+  "        if self.default_extension is not None and '.' not in spec:",
+  "        if self.default_extension is not None:")
+m("C16", "relative-dir-last", ZT,
+  "                search_path.insert(0, path)  # type: ignore[arg-type]",
+  "                search_path.append(path)  # type: ignore[arg-type]")
+m("C16", "registry-bypassed", LO,
+  '''        template = self.registry.get(args)
+        if template is None:''',
+  '''        template = None
+        if template is None:''')
+m("C16", "missing-template-returns-none", LO,
+  '''                else:
+                    raise ValueError("Template not found: %s." % spec)''',
+  '''                else:
+                    return None''')
+m("C16", "refactor-cook-check-local", TP,
+  '''        if self.auto_reload:
+            mtime = self.mtime()
+
+            if mtime != self._v_last_read:''',
+  '''        if self.auto_reload:
+            mtime = self.mtime()
+            if mtime != self._v_last_read:''', expect="silent")
